@@ -117,7 +117,7 @@ def classify(msg):
 
 
 def check(run):
-  timeout = 450 if run.tier == 'quick' else 1500
+  timeout = 900 if run.tier == 'quick' else 2400
   run.functions += ['federated_data.SubsetFederatedData / intersect_slice_ranges / ClientPreprocessor', 'in_memory_federated_data.InMemoryFederatedData',
                     'sqlite_federated_data.SQLiteFederatedData (slice, _range_where, point lookups, iteration)', 'client_datasets.BatchPreprocessor']
   run.trusted += ['CrossHair "Confirmed over all paths"', 'np_lite', 'SQL model: evaluator for the statement shapes fedjax issues, WHERE clause interpreted as written '
